@@ -3,7 +3,15 @@
 What is compared: what INDEXING a reader expression yields (values, shape, dtype up to byte order) and that the
 expression is a reader. The ATTRIBUTES a derived reader carries (`shape`, `n_channels`, `dtype`, ... - a shallow copy
 keeps the parent's: `reader[:, [0, 2]].shape == (n, 3)`, `(reader / 2).dtype == int16`) are OUTSIDE the statement,
-which speaks of what indexing yields: no attribute of a derived reader is read here, by `impl` or by a judge."""
+which speaks of what indexing yields: no attribute of a derived reader is read here, by `impl` or by a judge.
+
+BLOCKS THE CALLER POST-PROCESSES IN PLACE. An evaluation marked `scribble` is an ordinary evaluation (compared like any
+other) after which the caller overwrites, in place, every cell of the block it was handed (what `blk -= median` does).
+The block is the caller's: `np.vstack` in `__getitem__` always allocates it (Lean: `Model/C02c.getitem`, theorem
+`scribble_preserves_returns`), as `expr(loaded)[rows]` is a new array for every arithmetic expression. Every LATER
+evaluation of every reader of the family - the one that was indexed, its parent, siblings, readers derived afterwards -
+must still yield `expr(recording as stored)[rows]`; the Lean driver runs the same history on array objects by address
+and predicts the same cells. A block that refuses the write (read-only) is tallied, never judged."""
 import itertools
 import operator
 import numpy as np
@@ -20,7 +28,9 @@ RULE = ('derivation histories over {pos, neg, add, radd, sub, rsub, mul, rmul, t
         'after each derivation, siblings, grandchildren, evaluation order permuted), on flat '
         '(multi-file) / npy (C- and Fortran-ordered) / array / cbin readers, 1..4 channels and 6 native + 3 byte-swapped '
         'sample dtypes, followed by int / slice / list row indices (Python and NumPy-typed, in the chains too) with '
-        'optional channel selector. A case = one history; non-trivial = history with >= 2 derivations and >= 2 evaluations')
+        'optional channel selector; between evaluations the caller may overwrite IN PLACE the block an evaluation handed out '
+        '(rows within one part or across parts; flat files opened mode r or r+), after which every reader of the family is '
+        're-read. A case = one history; non-trivial = history with >= 2 derivations and >= 2 evaluations')
 ASSUMPTIONS = [
     'the numerical meaning and result dtype of each operator are NumPy\'s; the theorem is parametric in '
     'them; the harness applies the same NumPy operator eagerly (the property\'s own oracle)',
@@ -35,6 +45,10 @@ ASSUMPTIONS = [
     'is applied to the array in its STORED byte order; the values must agree exactly',
     'the attributes of a derived reader (shape / n_channels / dtype stay the parent\'s) are outside the statement, which '
     'speaks of what indexing yields; none is read',
+    '"the fully loaded array" is the recording the reader was opened on (the file(s) as written, the array as handed to '
+    'get_ephys_reader - the harness gives the reader its own copy and never writes to it): the only thing the harness ever '
+    'writes to is an array RETURNED by indexing a reader, which np.vstack in __getitem__ allocates anew on every call; that '
+    'such a block can be written to is not demanded (a refused write is tallied only)',
 ]
 DTYPES = ['int16', 'int32', 'int64', 'uint8', 'float32', 'float64']
 SWAPPED = ['>i2', '>f4', '>u4']        # non-native byte order (flat files, .npy, in-memory arrays)
@@ -118,7 +132,8 @@ def _reader(case, d):
                 f.write(A[off:off + l].tobytes())
             off += l
             paths.append(p)
-        r = get_ephys_reader(paths, sample_rate=100., dtype=np.dtype(dtype), n_channels=nch, offset=case.get('offset', 0))
+        r = get_ephys_reader(paths, sample_rate=100., dtype=np.dtype(dtype), n_channels=nch, offset=case.get('offset', 0),
+                             **({'mode': case['mode']} if case.get('mode') else {}))
     elif b == 'npy':
         # the same recording saved from a C-ordered or a Fortran-ordered array
         np.save(d / 'a.npy', np.asfortranarray(A) if case.get('npy_order') == 'F' else A)
@@ -196,7 +211,15 @@ def impl(case):
                         got = readers[s['reader']][item] if cols is None else readers[s['reader']][item, cols]
                         if _is_reader(got):   # reader[:, cols] is itself a reader
                             got = got[:]
-                    outs.append(dict(got=_enc(got), exp=_enc(exp)))
+                    o = dict(got=_enc(got), exp=_enc(exp))
+                    if s.get('scribble'):
+                        # the caller post-processes ITS block in place: every cell changes
+                        try:
+                            got[...] = (np.asarray(got) == 0)
+                            o['scribbled'] = 'written'
+                        except ValueError as e:
+                            o['scribbled'] = 'refused: %s' % str(e)[:60]
+                    outs.append(o)
                 except Exception as e:  # noqa
                     outs.append(dict(raised=type(e).__name__, msg=str(e)[:200], exp=_enc(exp)))
         del readers, r
@@ -215,7 +238,8 @@ def model_query(case, impl_res):
         elif s['k'] == 'fail':
             continue          # changes nothing: not part of the program the model sees
         else:
-            steps.append(dict(k='eval', reader=s['reader'], item=s['item'], cols=lean_cols(s.get('cols'))))
+            steps.append(dict(k='eval', reader=s['reader'], item=s['item'], cols=lean_cols(s.get('cols')),
+                              scribble=bool(s.get('scribble'))))
     return dict(p=PID, op='program', parts=case['parts'], nch=case['nch'], steps=steps)
 
 
@@ -234,6 +258,10 @@ def judge(case, impl_res, ans):
         elif s['k'] == 'cols':
             c = lean_cols(s['cols'])
             want.append(want[s['from']] + [{'cols': 1 if 'idx' in c else 2}])
+    if m.get('block_is_eval') is False:
+        return 'MACHINERY: a block handed out by getitem (array objects by address) is not what eval says (contradicts getitem_block_fresh)'
+    if any(mm and any(i >= 1000000000 for row in mm['ids'] for i in row) for mm in m['evals']):
+        return 'MACHINERY: the Lean model reads back a cell the caller wrote into a block (contradicts scribble_preserves_returns)'
     if m.get('ops') != want:
         return 'MACHINERY: the operation lists of the object store are not parent + own step (contradicts appendOp_statements)'
     if 'raised' in impl_res:
@@ -245,6 +273,7 @@ def judge(case, impl_res, ans):
     base = np.array([eval(v, {'nan': float('nan'), 'inf': float('inf')}) for v in ok['base']['vals']],
                     dtype=ok['base']['dtype'])
     evs = [s for s in case['steps'] if s['k'] == 'eval']
+    written = []       # evaluations whose block the caller has overwritten in place so far
     for i, (o, mm, s) in enumerate(zip(ok['outs'], m['evals'], evs)):
         if o.get('skip'):
             continue
@@ -252,8 +281,11 @@ def judge(case, impl_res, ans):
             return 'SPEC: evaluation %d raised %s (%s) although eager NumPy evaluation succeeds' % (
                 i, o['raised'], o['msg'])
         if o['got'] != o['exp']:
-            return 'SPEC: evaluation %d of reader %d differs from eager evaluation then indexing (value/dtype/shape)' % (
-                i, s['reader'])
+            return 'SPEC: evaluation %d of reader %d differs from eager evaluation then indexing (value/dtype/shape)%s' % (
+                i, s['reader'], ' - after the caller overwrote, in place, the block(s) handed out by evaluation(s) %s: a block '
+                'returned by indexing shares memory with what the readers read from' % written if written else '')
+        if o.get('scribbled') == 'written':
+            written.append(i)
         # correspondence with the Lean model: which cells, which operators in which order
         if mm is None:
             return 'MACHINERY: Lean model raises on an in-domain evaluation'
@@ -282,6 +314,32 @@ def tally(rep, case, impl_res, ans):
     for st in case['steps']:
         if st['k'] == 'eval':
             rep.count('row_index:%s(%s)' % (next(iter(st['item'])), st.get('kind', 'py')))
+    if case['backend'] == 'flat':
+        rep.count('flat files opened mode=%s' % (case.get('mode') or 'r (default)'))
+    # blocks the caller overwrites in place: which reader handed it out, rows from one part or several, and whether a
+    # reader is evaluated afterwards (only then can shared memory show)
+    arith, nscr = [False], 0
+    bounds = np.cumsum([0] + list(case['parts']))
+    outs = impl_res['ok'].get('outs', []) if 'ok' in impl_res else []
+    evi = 0
+    for st in case['steps']:
+        if st['k'] in ('derive', 'cols'):
+            arith.append(arith[st['from']] or st['k'] == 'derive')
+        elif st['k'] == 'eval':
+            o = outs[evi] if evi < len(outs) else {}
+            evi += 1
+            if nscr:
+                rep.count('evaluation after the caller overwrote %s returned block(s) in place' % ('1' if nscr == 1 else '>= 2'))
+            if st.get('scribble'):
+                nscr += 1
+                rows = np.arange(int(bounds[-1]))[_pyitem(st['item'], 'py')]
+                rows = np.atleast_1d(rows)
+                nparts = len({int(np.searchsorted(bounds, r, side='right')) for r in rows.tolist()})
+                rep.count('block overwritten in place: from %s, rows of %s, write %s' % (
+                    'an expression with an arithmetic operator' if arith[st['reader']] else
+                    ('the recording itself / channel selections only' + (' + [rows, cols]' if st.get('cols') else '')),
+                    'one part' if nparts == 1 else 'several parts',
+                    (o.get('scribbled') or 'not reached').split(':')[0]))
     if np.dtype(case['dtype']).byteorder == '>':
         # evaluations of reader expressions WITHOUT an arithmetic operator on a byte-swapped recording: the only ones
         # where indexing the stored array keeps '>' and the reader answers native (ASSUMPTIONS)
@@ -450,9 +508,18 @@ def gen(tier, rng):
                         it = its[(k + j + rdr) % len(its)]
                         kind = EVALKINDS[(k // 2 + j + rdr) % len(EVALKINDS)] if backend != 'cbin' else 'py'
                         steps.append({'k': 'eval', 'reader': rdr, 'item': it, 'kind': kind})
+                        # the caller overwrites in place some of the blocks it is handed; every ancestor is re-read
+                        # after the next derivation, and once more at the end of the chain
+                        if (k + 2 * j + rdr) % 4 == 0:
+                            steps[-1]['scribble'] = True
+                if ok_chain and any(s_.get('scribble') for s_ in steps):
+                    for rdr in range(cur + 1):
+                        its = items_for(n, rng, 1, backend == 'cbin')
+                        steps.append({'k': 'eval', 'reader': rdr, 'item': its[(k + rdr) % 2], 'kind': 'py'})
                 if ok_chain:
                     yield dict(p=PID, backend=backend, dtype=dtype, parts=parts, nch=nch, steps=steps, npy_order=npy_order,
-                               base=['ids', 'extreme'][(k // 2) % 2], offset=[0, 6, 0, 128][(k // 4) % 4])
+                               base=['ids', 'extreme'][(k // 2) % 2], offset=[0, 6, 0, 128][(k // 4) % 4],
+                               **({'mode': 'r+'} if backend == 'flat' and (k // 5) % 2 else {}))
     # random derivation trees
     for _ in range(3000 if q else 40000):
         dtype = rng.pick(DTYPES + DTYPES + SWAPPED)
@@ -463,6 +530,8 @@ def gen(tier, rng):
         widths = [nch]
         isf = [_native(dtype).kind == 'f']
         steps = []
+        # half of the histories have a caller that post-processes, in place, blocks it is handed
+        scribbler = rng.random() < .5
         for _ in range(rng.randrange(2, 7 if q else 9)):
             src = rng.randrange(len(widths))
             op = rng.pick(ops)
@@ -492,8 +561,11 @@ def gen(tier, rng):
                 if rng.random() < .3:
                     sel = [c for c in col_selectors(widths[rdr], rng) if c is not None and len(np.arange(widths[rdr])[_pycols(c, 'py')]) > 0]
                     ev['cols'] = rng.pick(sel)
+                if scribbler and rng.random() < .35:
+                    ev['scribble'] = True
                 steps.append(ev)
         if any(s['k'] == 'eval' for s in steps):
             yield dict(p=PID, backend=backend, dtype=dtype, parts=parts, nch=nch, steps=steps,
                        npy_order=rng.pick(['C', 'F']),
-                       base=rng.pick(['ids', 'extreme', 'extreme']), offset=rng.pick([0, 0, 10, 64]))
+                       base=rng.pick(['ids', 'extreme', 'extreme']), offset=rng.pick([0, 0, 10, 64]),
+                       **({'mode': 'r+'} if backend == 'flat' and rng.random() < .5 else {}))
